@@ -13,6 +13,11 @@
 //!   "barrier": {"dir": d, "n": k, "timeout_ms": t}
 //!                                   create d/<pid>, wait until d holds >= k entries, else exit 99
 //!   "redirect": true                close stdout/stderr first (task detaches from its pipes)
+//!   "chmod": [[path, mode]]         set the permission bits of other files first (a step of the
+//!                                   build that changes what a later command will find)
+//!   "rm_run_cmd": "<command>"       remove $MRHELPER_ROOT/<out>/run/*/<command> first (a "clean"
+//!                                   step wiping the log directories of the run in progress);
+//!                                   "out" names the output directory (default monorail-out)
 use std::io::Write;
 use std::time::Duration;
 
@@ -66,7 +71,8 @@ fn main() {
         .and_then(|p| std::fs::read_to_string(p).ok())
         .and_then(|s| serde_json::from_str(&s).ok())
         .unwrap_or(serde_json::Value::Null);
-    let script = [format!("{}|{}", command, target), format!("{}|*", command), "*".to_string()]
+    // "<command>|<target>/": the key of a target whose path is declared with a trailing slash
+    let script = [format!("{}|{}", command, target), format!("{}|{}/", command, target), format!("{}|*", command), "*".to_string()]
         .iter()
         .find_map(|k| plan.get(k).cloned())
         .unwrap_or(serde_json::Value::Null);
@@ -84,6 +90,23 @@ fn main() {
     }
 
     let mut exit_code = script.get("exit").and_then(|v| v.as_i64()).unwrap_or(0) as i32;
+
+    if let Some(list) = script.get("chmod").and_then(|v| v.as_array()) {
+        use std::os::unix::fs::PermissionsExt;
+        for e in list {
+            if let (Some(p), Some(m)) = (e.get(0).and_then(|v| v.as_str()), e.get(1).and_then(|v| v.as_u64())) {
+                let _ = std::fs::set_permissions(p, std::fs::Permissions::from_mode(m as u32));
+            }
+        }
+    }
+    if let Some(cmd) = script.get("rm_run_cmd").and_then(|v| v.as_str()) {
+        let out = script.get("out").and_then(|v| v.as_str()).unwrap_or("monorail-out");
+        if let Ok(rd) = std::fs::read_dir(format!("{}/{}/run", root, out)) {
+            for e in rd.flatten() {
+                let _ = std::fs::remove_dir_all(e.path().join(cmd));
+            }
+        }
+    }
 
     if script.get("redirect").and_then(|v| v.as_bool()).unwrap_or(false) {
         extern "C" {
